@@ -407,6 +407,16 @@ func (ex *Explorer) runPath(tt *TT, sol *Solver, fnInfos map[*ssa.Function]*fnIn
 			}
 		}
 	}
+	if ex.keepTracks && status == "done" && len(in.tracks) > 0 {
+		vars := ex.inputVars(in)
+		if res, vals := sol.Model(in.pc, "witness", vars); res == RSat {
+			vec := ex.vector(in, vals)
+			for _, t := range in.tracks {
+				t.vector = vec
+				t.params = in.paramsUsed
+			}
+		}
+	}
 	ex.mu.Lock()
 	defer ex.mu.Unlock()
 	st := &ex.stats
